@@ -97,6 +97,7 @@ type backendCtl interface {
 	sizeAware(kind cache.EntryKind) bool
 	put(o *object)
 	remove(o *object)
+	forget(hash string) // drop every object and record of the key (memory hygiene after a case)
 	setPlan(o *object, p *plan)
 	setUploadPlan(hash string, p *upPlan)
 	clearPlan(hash string)
